@@ -8,6 +8,7 @@ import (
 
 	. "github.com/cube2222/octosql/execution"
 	"github.com/cube2222/octosql/octosql"
+	"github.com/cube2222/octosql/verifhook"
 )
 
 type StreamJoin struct {
@@ -148,6 +149,7 @@ receiveLoop:
 	for {
 		select {
 		case msg, ok := <-leftMessages:
+			verifhook.JoinRecv(0, !ok)
 			if !ok {
 				leftDone = true
 				break receiveLoop
@@ -194,6 +196,7 @@ receiveLoop:
 			// TODO: Add backpressure
 
 		case msg, ok := <-rightMessages:
+			verifhook.JoinRecv(1, !ok)
 			if !ok {
 				leftDone = false
 				break receiveLoop
@@ -281,6 +284,7 @@ receiveLoop:
 	}
 
 	for msg := range openChannel {
+		verifhook.JoinRecv(verifhookSide(leftDone), false)
 		if msg.err != nil {
 			return msg.err
 		}
@@ -309,6 +313,8 @@ receiveLoop:
 			myRecordBuffer.AddRecord(msg.record)
 		}
 	}
+
+	verifhook.JoinRecv(verifhookSide(leftDone), true)
 
 	if err := processRecordsUpTo(ctx, WatermarkMaxValue, oneStreamRemains); err != nil {
 		return err
